@@ -25,7 +25,8 @@ RULE = ("random call histories of 1-6 calls after an initial fit, over {update(u
         "splitter with random window, step, start_with_window, or None), fit}; the data are random "
         "time-ordered batchings of a series on consecutive integer times: consecutive batches, "
         "batches overlapping the remembered data with different values and (7% of the updates) empty "
-        "batches; horizon given at fit in most "
+        "batches; plus histories with ABSOLUTE horizons (fixed time points) given at fit / predict / "
+        "update_predict_single and reused across updates [oracle only]; horizon given at fit in most "
         "histories, in some only at the first predict, in some never before the first refitting "
         "update (known finding); forecasters: leaf double, NaiveForecaster(last/mean) [in Coq], "
         "ensemble / multiplexer / pipeline / stacking composites of these [in Coq when the horizon is "
@@ -185,9 +186,24 @@ def _params(f):
 
 
 def _fh_of(f):
+    """stored horizon: a list = relative steps, {"abs": [...]} = absolute time points"""
     if f._fh is None:
         return None
-    return [int(h) for h in f._fh.to_pandas()]
+    vals = [int(h) for h in f._fh.to_pandas()]
+    return vals if f._fh.is_relative else {"abs": vals}
+
+
+def _mkfh(x):
+    """horizon argument of a call: None, a list of relative steps, or {"abs": absolute times}"""
+    if isinstance(x, dict):
+        from sktime.forecasting.base import ForecastingHorizon
+        return ForecastingHorizon(list(x["abs"]), is_relative=False)
+    return x
+
+
+def _fh_times(H, cut):
+    """the time points a horizon asks for, seen from the cutoff `cut`"""
+    return list(H["abs"]) if isinstance(H, dict) else [cut + h for h in H]
 
 
 def _preds(r, fhcv):
@@ -242,18 +258,30 @@ def _state_facts(f, horizons):
     for H in horizons:
         if not H:
             continue
+        H = H if isinstance(H, dict) else list(H)
         try:
-            pub = _ser(copy.deepcopy(f).predict(list(H)))
+            pub = _ser(copy.deepcopy(f).predict(_mkfh(H)))
         except Exception as e:
             pub = "public-predict-failed: %s" % type(e).__name__
         try:
             g = copy.deepcopy(f)
-            g._set_fh(list(H))
+            g._set_fh(_mkfh(H))
             ker = _ser(g._predict(g.fh))
         except Exception as e:
             ker = "kernel-failed: %s" % type(e).__name__
-        out.append([list(H), pub, ker])
+        out.append([H, pub, ker])
     return out
+
+
+def _stored_pred(f):
+    """predict() without a horizon: the horizon stored earlier is used"""
+    import copy
+    if f._fh is None:
+        return None
+    try:
+        return _ser(copy.deepcopy(f).predict())
+    except Exception as e:
+        return "stored-predict-failed: %s" % type(e).__name__
 
 
 def _op_horizon(o, f_before_fh):
@@ -274,7 +302,7 @@ def run_impl(case):
     spec = case["spec"]
     f = _build(spec)
     y0 = c09._series(case["t0"], case["y0"])
-    f.fit(y0, fh=case["fh0"])
+    f.fit(y0, fh=_mkfh(case["fh0"]))
     steps = [{"ret": "ok", "cut": int(f.cutoff), "mem": _ser(f._y), "fh": _fh_of(f)}]
     for o in case["ops"]:
         k = o[0]
@@ -286,16 +314,16 @@ def run_impl(case):
         st["par_before"] = _params(f)
         try:
             if k == "fit":
-                f.fit(c09._series(o[1], o[2]), fh=o[3])
+                f.fit(c09._series(o[1], o[2]), fh=_mkfh(o[3]))
                 st["ret"] = "ok"
             elif k == "update":
                 f.update(c09._series(o[1], o[2]), update_params=bool(o[3]))
                 st["ret"] = "ok"
             elif k == "predict":
-                st["ret"] = {"pred": _ser(f.predict(o[1]))}
+                st["ret"] = {"pred": _ser(f.predict(_mkfh(o[1])))}
             elif k == "ups":
                 st["ret"] = {"pred": _ser(f.update_predict_single(
-                    c09._series(o[1], o[2]), fh=o[3], update_params=bool(o[4])))}
+                    c09._series(o[1], o[2]), fh=_mkfh(o[3]), update_params=bool(o[4])))}
             elif k == "updpred":
                 y = c09._series(o[1], o[2])
                 cv = _cv(o[3])
@@ -315,9 +343,11 @@ def run_impl(case):
         if st["ret"] != "err":
             hs = []
             for H in (PROBE_FH, st["fh"], _op_horizon(o, _fh_of(before))):
-                if H and list(H) not in hs:
-                    hs.append(list(H))
+                H = H if isinstance(H, dict) or H is None else list(H)
+                if H and H not in hs:
+                    hs.append(H)
             st["state_facts"] = _state_facts(f, hs)
+            st["stored_pred"] = _stored_pred(f)
             if k == "updpred":
                 st["probe_before"] = _probe(before)
                 st["probe_after"] = _probe(f)
@@ -420,6 +450,22 @@ def _last_data_end(o):
     return o[1] + len(o[2]) - 1
 
 
+def _given_horizon(case, j):
+    """the horizon handed over most recently by the first j calls (None: not determined by the
+    history alone, e.g. after update_predict, which may store the splitter's horizon)"""
+    given = case["fh0"]
+    for o in case["ops"][:j]:
+        if o[0] == "predict" and o[1] is not None:
+            given = o[1]
+        elif o[0] == "ups" and o[3] is not None:
+            given = o[3]
+        elif o[0] == "fit" and o[3] is not None:
+            given = o[3]
+        elif o[0] == "updpred":
+            given = None
+    return given
+
+
 def oracle(case, out):
     steps = out["steps"]
     spec = case["spec"]
@@ -467,6 +513,15 @@ def oracle(case, out):
         if k == "updpred" and s["cut"] != s["cut_before"]:
             return "update-predict-did-not-restore-cutoff: %s: before %d after %d" % (
                 what, s["cut_before"], s["cut"])
+        # -- the horizon given last (at fit, predict or update_predict_single) is the one predict()
+        #    answers later on: an ABSOLUTE horizon names fixed time points, whatever was observed since
+        given = _given_horizon(case, j)
+        if isinstance(given, dict) and spec["t"] not in ("ens", "pipe", "mux", "stack") \
+                and isinstance(s.get("stored_pred"), list):
+            if [t for t, _ in s["stored_pred"]] != list(given["abs"]):
+                return ("absolute-horizon-not-kept: %s: the absolute horizon %s was given, predict() now "
+                        "forecasts the time points %s (own cutoff %d)" % (
+                            what, given["abs"], [t for t, _ in s["stored_pred"]], s["cut"]))
         # -- whatever was called before, predict(H) now is the forecast of the CURRENT state: own
         #    cutoff (restored after update_predict), remembered data and parameters as they are now
         for H, pub, ker in s.get("state_facts", ()):
@@ -481,7 +536,7 @@ def oracle(case, out):
                         "state for this horizon is %s" % (name, what, s["cut"], H, c09._show_ser(pub),
                                                           c09._show_ser(ker)))
             if spec["t"] not in ("ens", "pipe", "mux", "stack") \
-                    and [t for t, _ in pub] != [s["cut"] + h for h in H]:
+                    and [t for t, _ in pub] != _fh_times(H, s["cut"]):
                 return ("predict-not-indexed-from-own-cutoff: %s: own cutoff %d, predict(%s) is indexed "
                         "%s" % (what, s["cut"], H, [t for t, _ in pub]))
         # -- update_predict without parameter updating over data after the cutoff: cutoff, parameters
@@ -531,7 +586,7 @@ def oracle(case, out):
                         what, [t for t, _ in s["probe"]], want)
         if k == "ups":
             fh = o[3] if o[3] is not None else steps[j - 1]["fh"]
-            want = [s["cut"] + h for h in fh]
+            want = _fh_times(fh, s["cut"])
             if [t for t, _ in s["ret"]["pred"]] != want:
                 return "forecast-not-from-new-cutoff: %s: forecast times %s, expected %s" % (
                     what, [t for t, _ in s["ret"]["pred"]], want)
@@ -749,6 +804,47 @@ def _prev_end(t0, n0, ops):
     return end
 
 
+def _gen_abs_history(rng, spec):
+    """fit (absolute horizon, or none yet), then 2-4 of: update(T/F) with a consecutive or overlapping
+    batch, predict() with the stored horizon, predict(absolute horizon), update_predict_single(batch,
+    stored or new absolute horizon).  All absolute time points lie after the end of all the data."""
+    n0 = rng.randint(6, 8)
+    t0 = rng.choice([0, 0, 5, -3])
+    end = t0 + n0 - 1
+    ops = []
+    for _ in range(rng.randint(2, 4)):
+        r = rng.random()
+        if r < 0.45 or not ops:
+            ln = rng.choice([1, 2, 3])
+            start = end + 1 if rng.random() < 0.75 else end
+            ops.append(["update", start, [v + 1 for v in c09._gen_values(rng, ln)], rng.random() < 0.6])
+            end = max(end, start + ln - 1)
+        elif r < 0.75:
+            ops.append(["predict", None if rng.random() < 0.6 else "new"])
+        else:
+            ln = rng.choice([1, 2])
+            ops.append(["ups", end + 1, [v + 1 for v in c09._gen_values(rng, ln)],
+                        None if rng.random() < 0.5 else "new", rng.random() < 0.6])
+            end += ln
+    if ops[-1][0] != "predict":
+        ops.append(["predict", None])
+
+    def new_abs():
+        return {"abs": [end + h for h in _gen_fh(rng)]}
+    fh0 = new_abs() if rng.random() < 0.75 else None
+    have = fh0 is not None
+    for o in ops:
+        i = 1 if o[0] == "predict" else 3
+        if o[0] in ("predict", "ups"):
+            if o[i] == "new" or not have:
+                o[i] = new_abs()
+                have = True
+    c = {"spec": spec, "t0": t0, "y0": [v + 1 for v in c09._gen_values(rng, n0)], "fh0": fh0,
+         "ops": ops, "fh_mode": "abs", "kind": "abs-fh"}
+    c["first_refit_before_fh"] = _first_refit_before_fh(c)
+    return c
+
+
 def gen_cases(rng, tier):
     cases = []
     nleaf = 300 if tier == "quick" else 4000
@@ -791,6 +887,12 @@ def gen_cases(rng, tier):
                     o[1] += shift
         c["kind"] = "composite"
         cases.append(c)
+    # ABSOLUTE horizons (fixed time points, ForecastingHorizon(.., is_relative=False)) given at fit,
+    # predict or update_predict_single and reused across updates (oracle only)
+    abs_specs = [{"t": "rec", "g": 1, "a": 1, "k": 1}, {"t": "naive", "g": 1, "strategy": "last", "wl": None},
+                 {"t": "naive", "g": 1, "strategy": "mean", "wl": 2}, {"t": "poly", "degree": 1}, {"t": "ses"}]
+    for i in range(40 if tier == "quick" else 400):
+        cases.append(_gen_abs_history(rng, abs_specs[i % len(abs_specs)]))
     # pipelines over the REAL Detrender / Deseasonalizer (Detrender.update hands update_params to a
     # nested trend forecaster, Deseasonalizer.update changes nothing):
     # update_params=False must leave the nested trend model's coefficients alone (oracle only)
@@ -924,8 +1026,14 @@ def _ccomp_inputs(case):
                             czlist(case["fh0"]), clist([_cop(o) for o in case["ops"]]))
 
 
+def _has_abs(case):
+    return isinstance(case["fh0"], dict) or any(
+        (o[0] == "predict" and isinstance(o[1], dict)) or (o[0] in ("ups", "fit") and isinstance(o[3], dict))
+        for o in case["ops"])
+
+
 def coq_case(case, out):
-    if _nan(out):
+    if _nan(out) or _has_abs(case):         # absolute horizons: oracle only (Model.v: relative steps)
         return None
     snaps = clist(["(%s, %s, %s, %s)" % (_cret(s["ret"]), cz(s["cut"]), c09._cser(s["mem"]),
                                          _cfh(s["fh"])) for s in out["steps"]])
@@ -937,6 +1045,8 @@ def coq_case(case, out):
 
 
 def coq_model_term(case):
+    if _has_abs(case):
+        return "tt"
     if _in_coq(case["spec"]):
         return "c_run %s" % _cinputs(case)
     if _comp_in_coq(case):
